@@ -48,9 +48,13 @@ def sym_grad(u):
 
 
 def div(u):
-    if len(u.grad.shape) == 4:
-        return jnp.einsum('ii...', u.grad)
-    return u.div
+    if u.div is not None:
+        return u.div
+    elif u.grad is not None:
+        if len(u.grad.shape) == 4:
+            return jnp.einsum('ii...', u.grad)
+        return u.grad[0]  # one-dimensional u
+    raise NotImplementedError
 
 
 def dd(u):
